@@ -126,6 +126,7 @@ let rt_request_of s : rt_request * bool =
   let (k, v) = split2 '=' s in
   match k with
   | "los" -> (QListOffsets (tps_of v), true)
+  | "dg" -> (QDescribeGroups (List.map name_of (split ';' v)), true)
   | "m" -> let i = String.rindex v ':' in
     (QMetadata (names_of (String.sub v 0 i), String.sub v (i + 1) (String.length v - i - 1) = "1"), false)
   | _ -> (QOne (one_request s), false)
@@ -134,6 +135,15 @@ let rt_request_of s : rt_request * bool =
    it fails; "<err>/<node>,<err>/<node>" = the answers for key type 0 (group) and 1 (transaction) *)
 let fc_of s : coord_fn =
   if s = "-" then (fun _ _ -> None) else
+  if String.length s > 2 && String.sub s 0 2 = "k:" then begin
+    (* group coordinators by key: "k:<name>=<node>;..." *)
+    let tbl = List.map (fun e -> let (k, n) = split2 '=' e in (k, z_of_hex n))
+        (split ';' (String.sub s 2 (String.length s - 2))) in
+    (fun kt key -> if int_of_z kt <> 0 then None else
+        match List.assoc_opt (enc_name key) tbl with
+        | Some n -> Some { fc_err = z_of_hex "0"; fc_node = n }
+        | None -> None)
+  end else
   match split ',' s with
   | [g; t] ->
     let ans x = let (e, n) = split2 '/' x in Some { fc_err = z_of_hex e; fc_node = z_of_hex n } in
@@ -170,6 +180,30 @@ let trace_on (p : pool) boot vers client req (fc : coord_fn) : string =
       ^ (if int_of_z api = 0 then ":" ^ hex_of_z (produce_record_version v) else "")
     | WFind (kt, _) ->
       "b" ^ boot ^ ":" ^ hex_of_z k_FindCoordinator ^ ":" ^ hex_of_z fcver ^ ":" ^ hex_of_z (ktype_at_version fcver kt) in
+  match q with
+  | QDescribeGroups gs ->
+    (* one sub-request per part: the describe-groups entry names the part's groups; the merged
+       answer has, per part that reached a broker, that broker's answer for each of its groups *)
+    let parts = split_describegroups gs in
+    let results = List.map (fun part ->
+        match describegroups_request part with
+        | None -> (part, SendPanic)
+        | Some r -> (part, send_request p.ps_layout p.ps_conns r fc)) parts in
+    let names part = String.concat "+" (List.map enc_name part) in
+    let entries = List.concat_map (fun (part, sr) ->
+        let tr = (match sr with Sent tr -> tr | Rejected (tr, _) -> tr | SendPanic -> []) in
+        List.map (fun w -> match w with
+            | WReq (_, api) when int_of_z api = 15 -> entry w ^ ":" ^ names part
+            | _ -> entry w) tr) results in
+    let merged =
+      if List.exists (fun (_, sr) -> match sr with Sent _ -> false | _ -> true) results then "err"
+      else String.concat ";" (List.concat_map (fun (part, sr) ->
+          let node = (match sr with
+              | Sent tr -> (match List.rev tr with WReq (TBroker i, _) :: _ -> hex_of_z i | _ -> boot)
+              | _ -> "?") in
+          List.map (fun g -> enc_name g ^ "=0@b" ^ node) part) results) in
+    dot (String.concat "," (List.sort compare entries)) ^ "/" ^ merged
+  | _ ->
   match round_trip p q fc with
   | RTBlocked -> "blocked"
   | RTCacheErr _ -> "err"
@@ -258,6 +292,17 @@ let eval (op : string) (a : string list) : string =
     e2e_trace boot (md_of m1) (vers_of vers) (ranges_of client) req (fc_of fc)
   | "e2erec", [boot; m0; m1; faults; vers; client; req; fc] ->
     recovery_trace boot (md_of m0) (md_of m1) faults (vers_of vers) (ranges_of client) req (fc_of fc)
+  | "e2efu", [boot; m0; m1; vers; client; req; ntr; g] ->
+    (* g goroutines make the first use of a fresh transport together: one creates the pool, the
+       others find it by the re-check (or the fast path); all return; the pool must be alive *)
+    let g = int_of_n (n_of_hex g) in
+    let labels = RGrab GCreate :: (List.init (g - 1) (fun i -> RGrab (if i mod 2 = 0 then GRecheck else GFast)))
+                 @ List.init g (fun _ -> RDone) in
+    (match rp_run rpool_init labels with
+     | Some s when s.rp_registered && not s.rp_cancelled ->
+       ignore m0;
+       "live=" ^ ntr ^ "/" ^ ntr ^ ":" ^ trace_on (pool_of_md (md_of m1)) boot (vers_of vers) (ranges_of client) req no_coord
+     | _ -> "frozen")
   | "e2efail", _ -> "no-failure-expected"
   | _ -> "BADCASE"
 
